@@ -180,6 +180,9 @@ func (w *World) Start() (*proto.Result, error) {
 	}
 	w.lifeIdx++
 	w.Stats.Lifetimes++
+	if w.Knobs.LockYield {
+		w.Stats.Probe("lifetime-with-lock-yield-scheduling")
+	}
 	cfg := proto.Config{
 		Dir:             w.Dir,
 		RWMode:          w.Knobs.RWMode,
